@@ -488,8 +488,14 @@ func (x *CommonLex) LexNum(c rune) (int, TokVal) {
 		return false
 	}
 	b := x.ConstructToken(c, numMatcher, xutils.GetTokenName(xutils.NUM))
-	val, err := strconv.ParseFloat(b.String(), 10)
+	val, err := strconv.ParseFloat(b.String(), 64)
 
+	// A Number too large for a double is still a Number: it denotes the
+	// nearest IEEE 754 value, ie Infinity (what ParseFloat returns along
+	// with ErrRange).
+	if ne, ok := err.(*strconv.NumError); ok && ne.Err == strconv.ErrRange {
+		err = nil
+	}
 	if err != nil {
 		x.SetError(fmt.Errorf("bad number %q", b.String()))
 		return xutils.ERR, nil
